@@ -30,6 +30,16 @@ def file_bytes(gtirb, tables, level, ir_uuid, mod_uuid):
     for key, (tn, data) in tables.items():
         target[key].type_name = tn
         target[key].data = data
+    # byte-identical twins of every table in the OTHER container and in a
+    # second module: nothing in the run touches them
+    other = m.aux_data if level == "ir" else msg.aux_data
+    m2 = msg.modules.add()
+    m2.uuid = bytes(16 - len(b"twin")) + b"twin"
+    m2.name = "m2"
+    for cont in (other, m2.aux_data):
+        for key, (tn, data) in tables.items():
+            cont[key].type_name = tn
+            cont[key].data = data
     return (b"GTIRB\0\0" + bytes([gtirb.version.PROTOBUF_VERSION])
             + msg.SerializeToString())
 
@@ -40,6 +50,19 @@ def parse_tables(gtirb, raw, level):
     msg.ParseFromString(raw[8:])
     src = msg.aux_data if level == "ir" else msg.modules[0].aux_data
     return {k: (v.type_name, bytes(v.data)) for k, v in src.items()}
+
+
+def parse_twins(gtirb, raw, level):
+    """the tables of the two containers the run does not touch"""
+    from gtirb.proto import IR_pb2
+    msg = IR_pb2.IR()
+    msg.ParseFromString(raw[8:])
+    other = msg.modules[0].aux_data if level == "ir" else msg.aux_data
+    out = []
+    for src in (other, msg.modules[1].aux_data if len(msg.modules) > 1
+                else {}):
+        out.append({k: (v.type_name, bytes(v.data)) for k, v in src.items()})
+    return out
 
 
 def has_unknown(t):
@@ -348,6 +371,16 @@ def one_table(ctx, world, tno, forced=None):
             stn, sbytes = saved["t"]
             impl.append("ok %s %s" % (cc.hexs(stn), cc.hexb(sbytes)))
             exc = None
+            want_twin = {"t": (load_tn, load_bytes),
+                         "other": ("uint8_t", b"\x07")}
+            twins = parse_twins(gtirb, buf.getvalue(), level)
+            if twins != [want_twin, want_twin]:
+                return fail({"kind": "twin-table"},
+                            "a byte-identical table in another container "
+                            "(never read, never assigned) was not written "
+                            "back byte for byte: %r" % [sorted(
+                                (k, v[0], v[1].hex()[:40])
+                                for k, v in tw.items()) for tw in twins])
             if saved.get("other") != ("uint8_t", b"\x07") or \
                     set(saved) != {"t", "other"}:
                 return fail({"kind": "bystander-table"},
